@@ -455,7 +455,10 @@ def handle (j : Json) : R Json := do
       | some t => Json.mkObj [("params", jArr jParam t.params), ("tokerr", jBool t.strayError)]
       | none => Json.str "AssertionError")
   | "msd.render" => pure (jStr (MsdP.renderParam (← getParam (← field j "param"))))
-  | "msd.safe" => pure (jBool (safeParams (← getArr getParam (← field j "params")) false))
+  | "msd.safe" =>
+    let ps ← getArr getParam (← field j "params")
+    let lead ← (do let l := fieldD j "lead_nl" Json.null; if l.isNull then pure false else getBool l)
+    pure (jBool (safeDoc ((if lead then [Item.text ['\n']] else []) ++ ps.map Item.param)))
   | "load.any" =>
     let name ← getOptStr (fieldD j "name" Json.null)
     let force := fieldD j "force" Json.null
